@@ -690,7 +690,14 @@ func (p *Program) buildQueryOpt(o *Obligation, unfoldDepth int, filter bool) str
 				asserts = append(asserts, inv)
 			}
 		}
-		// tables reached as objects (rows of nested tables, map tables through a variable)
+		if o.NoUnfold {
+			unfoldDepth = 0
+		}
+		defs := p.unfoldDefs(asserts, unfoldDepth)
+		asserts = append(asserts, defs...)
+		// tables reached as objects (rows of nested tables, map tables through a variable); computed after the
+		// unfolding of the recursive spec functions, whose bodies may be the only place where a table row occurs
+		// (a lemma over a [][]T table)
 		if used := p.tablesReferenced(asserts); len(used) > 0 {
 			for _, v := range hv {
 				if tf := p.tableHeapFacts(used, p.heapVars[v].name, v); tf != True {
@@ -700,11 +707,6 @@ func (p *Program) buildQueryOpt(o *Obligation, unfoldDepth int, filter bool) str
 			asserts = append(asserts, p.tableRefFacts(asserts)...)
 		}
 	}
-	if o.NoUnfold {
-		unfoldDepth = 0
-	}
-	defs := p.unfoldDefs(asserts, unfoldDepth)
-	asserts = append(asserts, defs...)
 	{
 		d := unfoldDepth
 		if d < 2 && !o.NoUnfold {
